@@ -234,7 +234,14 @@ def _fresh(ctx, fn: FunctionInfo, e: ast.AST, use: ast.AST, depth: int = 0, trai
     if isinstance(e, ast.Name) and depth < 5:
         params = [p.arg for p in fn.params]
         verdicts = []
+        from .ctrl import _guard_conditions as _gc_
+
+        use_guards = dict(_gc_(fn.node, use))
         for d in cfg.reaching_defs(use, e.id):
+            # a definition made under the opposite of a condition that holds at the use is on another path
+            # (`if join: name = fresh() else: name = only(xs)` ... `if join: insert(name)`)
+            if d.stmt is not None and any(t_ in use_guards and use_guards[t_] != p_ for t_, p_ in _gc_(fn.node, d.stmt)):
+                continue
             if d.stmt is None:
                 if e.id in params:
                     sites = ctx.cg.call_sites_of(fn)
